@@ -15,6 +15,11 @@
  *   region <len> <xrow> <hex>   ex_region on a buffer of <len> lines
  *   plus <hex> / cut <hex>      ex_plus / cutword
  *   term <op>...                p<n> push n bytes, r read, R read with a refill byte ready, c term_cmd
+ *   regx <hex>                  the REG() macro on a heap block of exactly strlen+1 bytes
+ *   pexp <sp> <cur> <alt> <hex> ex_pathexpand(src, sp) with bufs[0].path = cur, bufs[1].path = alt
+ *                               ("-" = NULL, "e" = the empty string, else hex; heap blocks of exact size)
+ *   bufs <op>...                from an empty table: o open a new path, s<idx> bufs_switch(idx), h bufs_shift;
+ *                               answers the slot returned by bufs_findroom (o) and the table of used slots
  */
 #include "ex.c"
 #include "term.c"
@@ -178,6 +183,95 @@ static void do_term(char **w, int n)
 	printf("\n");
 }
 
+
+static void do_regx(char *hex)
+{
+	int n;
+	char *raw = pu_unhex(hex, &n, 0, 0);
+	char *s = exact(raw, strlen(raw));
+	printf("%d\n", REG(s));
+	free(raw);
+	free(s);
+}
+
+static char *path_arg(char *w)
+{
+	int n;
+	char *raw, *r;
+	if (!strcmp(w, "-"))
+		return NULL;
+	if (!strcmp(w, "e"))
+		return exact("", 0);
+	raw = pu_unhex(w, &n, 0, 0);
+	r = exact(raw, strlen(raw));
+	free(raw);
+	return r;
+}
+
+static void do_pexp(int sp, char *cur, char *alt, char *hex)
+{
+	int n;
+	char *raw = pu_unhex(hex, &n, 0, 0);
+	char *src = exact(raw, strlen(raw));
+	char *p0 = bufs[0].path, *p1 = bufs[1].path;
+	char *r;
+	bufs[0].path = path_arg(cur);
+	bufs[1].path = path_arg(alt);
+	xvis = 1;			/* the "not set" message goes to vi_msg, not to the answer line */
+	r = ex_pathexpand(src, sp);
+	xvis = 0;
+	if (!r)
+		printf("null\n");
+	else {
+		pu_hex(r, strlen(r));
+		printf("\n");
+	}
+	free(bufs[0].path);
+	free(bufs[1].path);
+	bufs[0].path = p0;
+	bufs[1].path = p1;
+	free(raw);
+	free(src);
+}
+
+static void show_bufs(void)
+{
+	int i;
+	for (i = 0; i < LEN(bufs); i++)
+		printf("%c", bufs[i].lb ? '1' : '0');
+	printf(" ");
+}
+
+static void do_bufs(char **w, int n)
+{
+	int i, k = 0;
+	char name[32];
+	for (i = 0; i < LEN(bufs); i++)
+		bufs_free(i);
+	memset(bufs, 0, sizeof(bufs));
+	bufs_cnt = 0;
+	for (i = 0; i < n; i++) {
+		if (w[i][0] == 'o') {
+			int idx;
+			snprintf(name, sizeof(name), "p%d", k++);
+			printf("%d:", bufs_findroom());
+			idx = bufs_open(name);
+			bufs_switch(idx);
+		} else if (w[i][0] == 's') {
+			bufs_switch(atoi(w[i] + 1));
+		} else if (w[i][0] == 'h') {
+			bufs_shift();
+		}
+		show_bufs();
+	}
+	printf("\n");
+	for (i = 0; i < LEN(bufs); i++)		/* back to one unnamed buffer for the other requests */
+		bufs_free(i);
+	memset(bufs, 0, sizeof(bufs));
+	bufs_cnt = 0;
+	bufs_switch(bufs_open(""));
+}
+
 static char *req_getline(void)
 {
 	ssize_t n = getline(&pu_line, &pu_cap, req);
@@ -218,6 +312,12 @@ int main(void)
 			do_plus(w[1], 1);
 		else if (n >= 1 && !strcmp(w[0], "term"))
 			do_term(w + 1, n - 1);
+		else if (n == 2 && !strcmp(w[0], "regx"))
+			do_regx(w[1]);
+		else if (n == 5 && !strcmp(w[0], "pexp"))
+			do_pexp(atoi(w[1]), w[2], w[3], w[4]);
+		else if (n >= 1 && !strcmp(w[0], "bufs"))
+			do_bufs(w + 1, n - 1);
 		else
 			printf("?\n");
 		fflush(stdout);
